@@ -275,14 +275,15 @@ def run(chk, scratch):
         last_of_site = {ns[-1] for ns in by_site.values() if len(ns) > 1}
 
         # files a resumed run takes over when it finds them (copies or conversions of its inputs): killed right after they were created
-        reusable = {e["n"] for e in points if os.path.basename(e["path"]).lower().endswith((".fa", ".fasta", ".fna", ".db", ".bed", ".gtf", ".fai"))}
+        reusable = {e["n"] for e in points if os.path.basename(e["path"]).lower().endswith((".fa", ".fasta", ".fna", ".db", ".bed", ".gtf", ".fai", ".gzi"))}
 
         def after(n):
             return n in lockish or n in last_of_site or n in reusable or n % 3 == 2
 
         # a file that gets its final name by a rename: killed right after it (the complete file is there) AND right before it (what was there
         # before, e.g. the file of an earlier run, is still there); the second variant is listed as -n
-        chosen += [-e["n"] for e in points if e["op"] == "rename" and e["n"] in chosen]
+        # (the same for the index files of the reference, which are written in place by the library that reads them)
+        chosen += [-e["n"] for e in points if (e["op"] == "rename" or os.path.basename(e["path"]).endswith((".fai", ".gzi"))) and e["n"] in chosen]
 
         def one(n):
             before_rename = n < 0
